@@ -35,7 +35,10 @@ def load_config():
 def sync_tree(pid):
     dst = os.path.join(BUILD, pid, 'src')
     os.makedirs(dst, exist_ok=True)
-    subprocess.run(['rsync', '-a', '--delete', '--exclude', '/target', '--exclude', '.git', '--exclude', '/web', '--exclude', '/docs',
+    # no -t: a file whose CONTENT changed gets a fresh mtime in the copy whatever its mtime in /repo (cargo decides
+    # freshness by mtime; a reverted file with an old timestamp would otherwise leave a stale binary behind),
+    # --checksum: unchanged files are not touched at all
+    subprocess.run(['rsync', '-rlpgoD', '--checksum', '--delete', '--exclude', '/target', '--exclude', '.git', '--exclude', '/web', '--exclude', '/docs',
                     '--exclude', '/datasets',
                     REPO + '/', dst + '/'], check=True)
     return dst
@@ -350,7 +353,10 @@ def finish(res, cfg, t0, seed):
     for v in res.violations:
         matched = None
         for k in kf:
-            if k.get('unit') == v.get('unit') and k.get('fn') == v.get('fn') and k.get('clause') == v.get('clause'):
+            if k.get('unit') == v.get('unit') and k.get('fn') == v.get('fn') and (k.get('clause') or '') == (v.get('clause') or ''):
+                # match=<text without blanks>: the recorded finding is THIS failing input - the failure message must show it
+                if k.get('match') and k['match'] not in (v.get('rendered') or ''):
+                    continue
                 matched = k
                 break
         if matched and v.get('witness_confirms_known', True):
@@ -362,7 +368,7 @@ def finish(res, cfg, t0, seed):
     status = 'pass'
     lines = []
     for k, v in res.known:
-        lines.append('KNOWN-FINDING: property=%s %s' % (pid, k['_line']))
+        lines.append('KNOWN-FINDING: property=%s %s' % (pid, re.sub(r'^property=\S+\s+', '', k['_line'])))
     for v in real_viol:
         rp = v.get('replay')
         if not rp:
@@ -392,6 +398,7 @@ def finish(res, cfg, t0, seed):
         status=status,
     )
     cov.update(res.extra)
+    cov['known_findings_reported'] = [k['_line'] for k, _ in res.known]
     if level == 'model_checking':
         cov['evaluations'] = max(res.obligations, 1)
         cov['distinct_nontrivial'] = max(res.discharged, 0)
